@@ -1,10 +1,14 @@
 """Per-property claim texts for MANIFEST.json (see tools/gen_manifest.py)."""
 
 _GEN = ("Decides the structural clauses listed in DESIGN.md section 5 for this property on every site and path of the "
-        "current source; it does not decide numerical behaviour. Branch-selection, default and refusal conditions named in "
-        "DESIGN.md 11.7 are decided as predicates (finite truth table over type/None tests and the order types of the counts "
-        "compared); the thorough tier adds the mutant/equivalent corpora and a single-edit mutation analysis of the anchored "
-        "functions (DESIGN.md 11.6). ")
+        "current source; it does not decide numerical behaviour. The source is first put into a canonical control-flow form "
+        "(guard-clause style, positive tests, split guards, accumulate-loops as comprehensions, helpers unknown to the rules "
+        "inlined; DESIGN.md 12.2); branch-selection, default and refusal conditions are decided as reach conditions on the CFG "
+        "(enclosing branches and survived guards) by a finite truth table over type/None/membership tests and the order types of "
+        "the counts compared (11.5, 12.3); a function that differs from its reference form is analysed in that form only when "
+        "value numbering over gated alternatives proves the two equivalent (12.4). The thorough tier adds the mutant/equivalent "
+        "corpora, whole-repository rewrites, a single-edit mutation analysis of the anchored functions, and measurements on the "
+        "independently produced seeded regressions and benign refactorings of this property. ")
 
 CLAIMS = {
     "C08": {
